@@ -98,7 +98,13 @@ func (_this *Context) SwapBuilder(builder Builder) Builder {
 
 func (_this *Context) ArtificiallyTerminate() {
 	for len(_this.builderStack) > 1 {
+		depth := len(_this.builderStack)
 		_this.CurrentBuilder.BuildArtificiallyEndContainer(_this)
+		if len(_this.builderStack) >= depth {
+			// This builder does not end itself (edge, node, ignore builders...):
+			// drop it so that termination always makes progress.
+			_this.UnstackBuilder()
+		}
 	}
 }
 
